@@ -398,7 +398,7 @@ theorem store_loop (H) (self src : Nat) (n : Nat) : ∀ (i : Nat) (τ : State),
 /-- `Builder.store_slice(s)` = the model's `storeFrom`: references overflow (against the REMAINING references `len(refs) - ref_offset`)
 checked first, then the bits overflow; then the builder's OWN array gets the slice's remaining bits and its OWN list the remaining
 ELEMENTS `refs[ref_offset:]` one by one - neither of the slice's containers is kept.  Needs: the builder's list is not the slice's
-list (`Sep`; in `to_builder` the builder is new) and `ref_offset ≤ len(refs)` (`load_ref` never moves past the end). -/
+list (`Sep`; in `to_builder` the builder is new); `ref_offset ≤ len(refs)` is `WF.offLe` (`load_ref` never moves past the end). -/
 theorem Builder_store_slice_core (H) (σ : State) (self src : Nat) (h : σ.has self .builder = true) (hs : σ.has src .slice = true)
     (ho : (σ.obj self).off = 0) (hne : (σ.obj self).refsId ≠ (σ.obj src).refsId)
     (hoff : (σ.obj src).off ≤ (σ.refBuf (σ.obj src).refsId).length ∨ (σ.refBuf (σ.obj self).refsId).length = 0) :
@@ -430,10 +430,10 @@ theorem Builder_store_slice_core (H) (σ : State) (self src : Nat) (h : σ.has s
       · simp [hj]
 
 theorem Builder_store_slice_eq (H) (σ : State) (wf : WF σ) (self src : Nat) (h : σ.has self .builder = true) (hs : σ.has src .slice = true)
-    (hne : (σ.obj self).refsId ≠ (σ.obj src).refsId) (hoff : (σ.obj src).off ≤ (σ.refBuf (σ.obj src).refsId).length) :
+    (hne : (σ.obj self).refsId ≠ (σ.obj src).refsId) :
     Py.Heap.resultUnit σ (Builder_store_slice H σ self src) = step H σ (.storeFrom self src) := by
   obtain ⟨hi, ht⟩ := has_lt h
-  exact Builder_store_slice_core H σ self src h hs (wf.off0 self hi (by rw [ht]; decide)) hne (Or.inl hoff)
+  exact Builder_store_slice_core H σ self src h hs (wf.off0 self hi (by rw [ht]; decide)) hne (Or.inl (wf.offLe src (has_lt hs).1))
 
 /-- `store_slice` returns its receiver -/
 theorem Builder_store_slice_ret (H) (σ σ' : State) (b c r : Nat) (h : Builder_store_slice H σ b c = some (σ', r)) : r = b := by
